@@ -765,10 +765,8 @@ def _has_q_nil_pair(v):
 
 
 def closed_body_with_quote_nil(prog):
-    """a body (main or function) without any variable reference that contains a quoted constant with a (1 . nil) pair"""
+    """a body (main or function) that contains a quoted constant with a (1 . nil) pair (seen first in closed bodies, then under seed 4 in a body with variables)"""
     for _, _, root in _walk_exprs(prog):
-        if expr_vars(root):
-            continue
         for _, s in subexprs(root):
             if s[0] == "q" and _has_q_nil_pair(s[1]):
                 return True
